@@ -211,6 +211,35 @@ func s1PredValues() []*big.Int {
 		s.add(new(big.Int).Or(top, low31ones))
 		s.add(top)
 	}
+	// the word-wise comparison against the order: every 64-bit word independently below / at / above the order's word
+	// (a comparison that skips or mis-orders a word is wrong on some element of this product)
+	{
+		var ow [4]*big.Int
+		for i := uint(0); i < 4; i++ {
+			ow[i] = new(big.Int).And(new(big.Int).Rsh(refL, 64*i), ones64)
+		}
+		alts := func(w *big.Int) []*big.Int {
+			var o []*big.Int
+			for _, e := range []int64{-1, 0, 1} {
+				v := new(big.Int).Add(w, big.NewInt(e))
+				if v.Sign() >= 0 && v.Cmp(ones64) <= 0 {
+					o = append(o, v)
+				}
+			}
+			return append(o, big.NewInt(0), new(big.Int).Set(ones64))
+		}
+		for _, w3 := range alts(ow[3]) {
+			for _, w2 := range alts(ow[2]) {
+				for _, w1 := range alts(ow[1]) {
+					for _, w0 := range alts(ow[0]) {
+						v := new(big.Int).Set(w3)
+						v.Lsh(v, 64).Or(v, w2).Lsh(v, 64).Or(v, w1).Lsh(v, 64).Or(v, w0)
+						s.add(v)
+					}
+				}
+			}
+		}
+	}
 	for _, pat := range []byte{0x77, 0x88, 0xff, 0x7f, 0x80, 0xf0, 0x0f, 0x55, 0xaa, 0x10, 0x01} {
 		b := make([]byte, 32)
 		for i := range b {
